@@ -11,7 +11,7 @@ Open Scope N_scope.
 
 Definition vspec (o : obj) : Prop :=
   forall L d depth f ws tail,
-    limits_ok L = true -> wf_obj L d o = true -> no_ref o = true -> no_empty_arr o = true ->
+    limits_ok L = true -> wf_obj L d o = true -> no_ref o = true ->
     N.of_nat (vdepth o) + depth <= max_value_depth ->
     is_lead ws -> (ends_reg o = true -> follow_ok tail = true) -> (osize o <= f)%nat ->
     read_value L f depth (ws ++ body false o ++ tail) = COk (cnorm o) tail.
@@ -23,7 +23,7 @@ Lemma read_value_arr_eq L f depth acc s :
   | Ok s1 =>
     match s1 with
     | b :: r =>
-      if b =? cRB then COk (match acc with [] => ONilArr | _ => OArr (rev acc) end) r
+      if b =? cRB then COk (OArr (rev acc)) r
       else if max_arr L <=? N.of_nat (length acc) then CParse s1
       else
         match read_value L f depth s1 with
@@ -37,7 +37,7 @@ Proof. reflexivity. Qed.
 
 Lemma vspec_atomic o : is_atomic o = true -> vspec o.
 Proof.
-  intros Ha L d depth f ws tail HL Hw Hnr Hne Hd Hws Hf Hfuel.
+  intros Ha L d depth f ws tail HL Hw Hnr Hd Hws Hf Hfuel.
   assert (Hs : osize o = 1%nat) by (destruct o; try discriminate; reflexivity).
   destruct f as [|f]; [lia|]. rewrite read_value_eq.
   rewrite (atom_token L d o ws tail HL Ha Hw Hws Hf). reflexivity.
@@ -46,19 +46,19 @@ Qed.
 (* the elements of an array *)
 Lemma varr_elems L d depth tail : forall l sep acc f,
   Forall vspec l -> limits_ok L = true ->
-  forallb (wf_obj L d) l = true -> forallb no_ref l = true -> forallb no_empty_arr l = true ->
+  forallb (wf_obj L d) l = true -> forallb no_ref l = true ->
   (forall x, In x l -> N.of_nat (vdepth x) + depth <= max_value_depth) ->
   arr_fits L (N.of_nat (length acc)) l = true -> (lsize l <= f)%nat ->
   read_value_arr L f depth acc (fmt_list_plain sep l ++ cRB :: tail)
-  = COk (match rev (map cnorm l) ++ acc with [] => ONilArr | a => OArr (rev a) end) tail.
+  = COk (OArr (rev (rev (map cnorm l) ++ acc))) tail.
 Proof.
-  induction l as [|o r IH]; intros sep acc f HP HL Hw Hnr Hne Hdep Hfit Hfuel.
+  induction l as [|o r IH]; intros sep acc f HP HL Hw Hnr Hdep Hfit Hfuel.
   - destruct f as [|f]; [cbn in Hfuel; lia|]. cbn [fmt_list_plain app map rev].
     rewrite read_value_arr_eq. rewrite skip_ws_stop by reflexivity.
-    change (cRB =? cRB) with true. cbn iota. destruct acc; reflexivity.
+    change (cRB =? cRB) with true. cbn iota. reflexivity.
   - inversion HP as [|? ? HPo HPr]; subst.
-    cbn [forallb] in Hw, Hnr, Hne. apply andb_true_iff in Hw as [Hwo Hwr].
-    apply andb_true_iff in Hnr as [Hno Hnrr]. apply andb_true_iff in Hne as [Hneo Hner].
+    cbn [forallb] in Hw, Hnr. apply andb_true_iff in Hw as [Hwo Hwr].
+    apply andb_true_iff in Hnr as [Hno Hnrr].
     apply arr_fits_cons in Hfit as [Hc Hfit]. pose proof (cost_pos o) as Hcp.
     rewrite lsize_cons in Hfuel. destruct f as [|f]; [lia|].
     rewrite fmt_list_plain_cons. rewrite <- !app_assoc.
@@ -69,11 +69,11 @@ Proof.
     destruct (plain_tail L d r (ends_reg o) tail Hwr) as (t1 & _ & _ & Hfo).
     assert (Hval : read_value L f depth (body false o ++ fmt_list_plain (ends_reg o) r ++ cRB :: tail)
                    = COk (cnorm o) (fmt_list_plain (ends_reg o) r ++ cRB :: tail)).
-    { apply (HPo L d depth f [] _ HL Hwo Hno Hneo); [apply Hdep; left; reflexivity | left; reflexivity | exact Hfo | lia]. }
+    { apply (HPo L d depth f [] _ HL Hwo Hno); [apply Hdep; left; reflexivity | left; reflexivity | exact Hfo | lia]. }
     rewrite E in *. cbn [app] in *. rewrite H1.
     replace (max_arr L <=? N.of_nat (length acc)) with false by (symmetry; apply N.leb_gt; lia).
     unfold bytes, byte in *. rewrite Hval.
-    rewrite IH; [ | exact HPr | exact HL | exact Hwr | exact Hnrr | exact Hner
+    rewrite IH; [ | exact HPr | exact HL | exact Hwr | exact Hnrr
                   | intros x Hx; apply Hdep; right; exact Hx
                   | cbn [length]; rewrite of_nat_S; exact Hfit | lia ].
     cbn [map rev]. rewrite <- app_assoc. reflexivity.
@@ -81,10 +81,10 @@ Qed.
 
 Lemma vspec_arr l : Forall vspec l -> vspec (OArr l).
 Proof.
-  intros HP L d depth f ws tail HL Hw Hnr Hne Hd Hws Hf Hfuel.
+  intros HP L d depth f ws tail HL Hw Hnr Hd Hws Hf Hfuel.
   destruct (limits_ok_facts L HL) as [Hn5 _].
   cbn [wf_obj] in Hw. apply andb_true_iff in Hw as [Hw Hall]. apply andb_true_iff in Hw as [_ Hfit].
-  cbn [no_ref] in Hnr. cbn [no_empty_arr] in Hne. apply andb_true_iff in Hne as [Hnonempty Hne].
+  cbn [no_ref] in Hnr.
   change (osize (OArr l)) with (S (S (lsize l))) in Hfuel. destruct f as [|[|f]]; try lia.
   unfold body. rewrite fmt_obj_arr. cbn [fst]. rewrite <- !app_assoc. cbn [app].
   rewrite read_value_eq. rewrite scan_token_lb by (auto; lia).
@@ -99,18 +99,14 @@ Proof.
     by (symmetry; apply N.leb_gt; cbn [vdepth] in Hd; lia).
   etransitivity.
   { apply (varr_elems L (d + 1) (depth + 1) tail l false [] (S f)); auto. lia. }
-  rewrite app_nil_r. cbn [cnorm].
-  destruct l as [|x r]; [discriminate|]. cbn [map rev].
-  destruct (rev (map cnorm r) ++ [cnorm x]) eqn:E.
-  - exfalso. apply (f_equal (@length obj)) in E. rewrite app_length in E. cbn [length] in E. lia.
-  - change (rev l ++ [o]) with (rev (o :: l)). rewrite <- E. rewrite rev_app_distr, rev_involutive. reflexivity.
+  rewrite app_nil_r, rev_involutive. reflexivity.
 Qed.
 
 (* the entries of a dictionary *)
 Lemma vdict_entries L d depth rest : forall es acc f,
   Forall (fun kv => vspec (snd kv)) es -> limits_ok L = true ->
   Forall (fun kv => wf_name L (fst kv) = true /\ wf_obj L d (snd kv) = true /\ no_ref (snd kv) = true
-                    /\ no_empty_arr (snd kv) = true /\ N.of_nat (vdepth (snd kv)) + depth <= max_value_depth) es ->
+                    /\ N.of_nat (vdepth (snd kv)) + depth <= max_value_depth) es ->
   NoDup (map fst acc ++ map fst es) -> N.of_nat (length acc + length es) <= max_dict L ->
   (S (esz es) <= f)%nat ->
   read_dict_body L f kw_gtgt depth acc (entries_text false es ++ kw_gtgt ++ rest)
@@ -120,7 +116,7 @@ Proof.
   - destruct f as [|f]; [lia|]. cbn [entries_text map concat app filter]. rewrite read_dict_body_eq.
     cbn [kw_gtgt app]. rewrite skip_ws_stop by reflexivity. cbn [starts_with].
     change (cGT =? cGT) with true. cbn [andb length drop]. rewrite app_nil_r. reflexivity.
-  - inversion HP as [|? ? HPv HPr]; subst. inversion Hw as [|? ? (Hk & Hwv & Hnv & Hnev & Hdv) Hwr]; subst.
+  - inversion HP as [|? ? HPv HPr]; subst. inversion Hw as [|? ? (Hk & Hwv & Hnv & Hdv) Hwr]; subst.
     cbn [fst snd] in *. destruct (wf_name_facts L k Hk) as [Hk1 Hk2].
     cbn [esz fold_right snd] in Hfuel. fold (esz r) in Hfuel.
     destruct f as [|f]; [lia|].
@@ -148,7 +144,7 @@ Proof.
     (* the value *)
     assert (Hval : read_value L (S f) depth (lead true v ++ body false v ++ entries_text false r ++ kw_gtgt ++ rest)
                    = COk (cnorm v) (entries_text false r ++ kw_gtgt ++ rest)).
-    { apply (HPv L d depth (S f) (lead true v) _ HL Hwv Hnv Hnev Hdv); [apply lead_is_lead | | lia].
+    { apply (HPv L d depth (S f) (lead true v) _ HL Hwv Hnv Hdv); [apply lead_is_lead | | lia].
       intros _. exact Hfoll. }
     unfold bytes, byte in *. rewrite Hval.
     cbn [map filter]. unfold nn2 at 1. unfold ckv at 1. cbn [fst snd].
@@ -168,10 +164,10 @@ Proof. rewrite (esz_perm _ _ (sort_perm (filter nonnull l))). apply esz_filter. 
 
 Lemma vspec_dict l : Forall (fun kv => vspec (snd kv)) l -> vspec (ODict l).
 Proof.
-  intros HP L d depth f ws tail HL Hw Hnr Hne Hd Hws Hf Hfuel.
+  intros HP L d depth f ws tail HL Hw Hnr Hd Hws Hf Hfuel.
   cbn [wf_obj] in Hw. apply andb_true_iff in Hw as [Hw Hall]. apply andb_true_iff in Hw as [Hw Hcnt].
   apply andb_true_iff in Hw as [_ Hnd]. apply N.leb_le in Hcnt.
-  cbn [no_ref] in Hnr. cbn [no_empty_arr] in Hne.
+  cbn [no_ref] in Hnr.
   set (es := sort_entries (filter nonnull l)).
   assert (Hperm : Permutation es (filter nonnull l)) by apply sort_perm.
   assert (Hin : forall kv, In kv es -> In kv l).
@@ -202,17 +198,17 @@ Proof.
     by (symmetry; apply N.leb_gt; cbn [vdepth] in Hd; lia).
   rewrite (vdict_entries L (d + 1) (depth + 1) tail es [] f); auto.
   - apply Forall_forall. intros kv Hkv. rewrite Forall_forall in HP. exact (HP kv (Hin kv Hkv)).
-  - apply Forall_forall. intros kv Hkv. rewrite forallb_forall in Hall, Hnr, Hne.
+  - apply Forall_forall. intros kv Hkv. rewrite forallb_forall in Hall, Hnr.
     pose proof (Hall kv (Hin kv Hkv)) as H1. apply andb_true_iff in H1 as [H1 H2].
     repeat split; auto;
-      first [ apply (Hnr kv (Hin kv Hkv)) | apply (Hne kv (Hin kv Hkv)) | apply Hdep; apply Hin; exact Hkv ].
+      first [ apply (Hnr kv (Hin kv Hkv)) | apply Hdep; apply Hin; exact Hkv ].
   - cbn [length]. rewrite Hlen. lia.
   - unfold es. rewrite esz_esize. lia.
 Qed.
 
 Lemma vspec_nildict : vspec ONilDict.
 Proof.
-  intros L d depth f ws tail HL Hw Hnr Hne Hd Hws Hf Hfuel.
+  intros L d depth f ws tail HL Hw Hnr Hd Hws Hf Hfuel.
   cbn [osize] in Hfuel. destruct f as [|[|f]]; try lia.
   change (body false ONilDict) with (kw_ltlt ++ kw_gtgt). rewrite <- !app_assoc.
   rewrite read_value_eq. rewrite scan_token_ltlt by exact Hws.
@@ -242,7 +238,7 @@ Proof.
   cbn [forallb] in H. apply andb_true_iff in H as [Hkv H]. specialize (IH H).
   unfold wf_img_entry_full in Hkv. cbn [fst snd] in Hkv.
   apply andb_true_iff in Hkv as [Hkv _]. apply andb_true_iff in Hkv as [Hkv _].
-  apply andb_true_iff in Hkv as [Hkv _]. apply andb_true_iff in Hkv as [Hkv Hwv].
+  apply andb_true_iff in Hkv as [Hkv Hwv].
   apply andb_true_iff in Hkv as [_ Hnn]. apply negb_true_iff in Hnn.
   cbn [efuel fold_right snd map concat]. fold (efuel r). rewrite app_length.
   unfold fmt_image_entry at 1. cbn [fst snd]. rewrite !app_length. cbn [length].
@@ -269,7 +265,7 @@ Proof.
   - cbn [efuel fold_right snd] in Hf. fold (efuel r) in Hf. destruct f as [|[|f]]; try lia.
     cbn [forallb] in Hw. apply andb_true_iff in Hw as [Hkv Hw].
     unfold wf_img_entry_full in Hkv. cbn [fst snd] in Hkv.
-    apply andb_true_iff in Hkv as [Hkv Hvd]. apply andb_true_iff in Hkv as [Hkv Hnev].
+    apply andb_true_iff in Hkv as [Hkv Hvd].
     apply andb_true_iff in Hkv as [Hkv Hnrv]. apply andb_true_iff in Hkv as [Hkv Hwv].
     apply andb_true_iff in Hkv as [Hkey Hnn]. apply negb_true_iff in Hnn. apply Nat.leb_le in Hvd.
     unfold wf_img_key in Hkey. apply andb_true_iff in Hkey as [Hkey Hkl]. apply andb_true_iff in Hkey as [_ Hkr].
@@ -298,7 +294,7 @@ Proof.
       replace (max_name L <? blen k) with false by (symmetry; apply N.ltb_ge; exact Hkl). reflexivity. }
     rewrite Hkeytok by reflexivity.
     (* the value *)
-    pose proof (vspec_all v L 0 0 (S f) [cSP] (cLF :: concat (map fmt_image_entry r) ++ n_ID ++ X) HL Hwv Hnrv Hnev
+    pose proof (vspec_all v L 0 0 (S f) [cSP] (cLF :: concat (map fmt_image_entry r) ++ n_ID ++ X) HL Hwv Hnrv
                   ltac:(unfold max_value_depth; cbn; lia) (or_intror eq_refl) (fun _ => eq_refl) Hfv) as Hval.
     unfold fmt_operand. fold (body false v). cbn [app] in Hval.
     unfold bytes, byte in *. rewrite Hval.
